@@ -375,6 +375,13 @@ class SchemaGen:
         for i, n in enumerate(iface_names):
             spec.interfaces[n] = ([], [])
         obj_names = [names.type_name("Ob") for _ in range(rng.randrange(2, 3 + 2 * scale))]
+        if iface_names and names.n % 3 == 0:
+            # BaseUser / User, Node / NodeEdge: one type name contained in another (decided without consuming randomness, so other draws keep their values)
+            short = iface_names[0][2:]
+            if short not in names.used and short.lower() not in names.used:
+                names.used.update((short, short.lower()))
+                obj_names[0] = short
+                self.feats.add("names.type_contained_in_interface")
         for n in obj_names:
             spec.objects[n] = ([], [])
         for _ in range(rng.randrange(0, 1 + scale)):
@@ -396,7 +403,7 @@ class SchemaGen:
             fields = [self.make_field(0.45) for _ in range(rng.randrange(1, 5))]
             impl = []
             for iface in iface_names:
-                if rng.random() < 0.5:
+                if (rng.random() < 0.5) or n in iface:
                     for p in [iface] + list(spec.interfaces[iface][0]):
                         if p not in impl:
                             impl.append(p)
